@@ -211,7 +211,19 @@ impl<T> MailboxConsumer<T> {
 
   /// Receives a message asynchronously.
   pub(crate) fn recv_async(&self) -> RecvFuture<'_, T> {
-    RecvFuture { consumer: self }
+    RecvFuture {
+      consumer: self,
+      handle_closed: false,
+    }
+  }
+
+  /// Like [`recv_async`](Self::recv_async) for a receiver handle that was itself
+  /// closed: the future resolves to `Disconnected` without touching the mailbox.
+  pub(crate) fn recv_async_closed(&self) -> RecvFuture<'_, T> {
+    RecvFuture {
+      consumer: self,
+      handle_closed: true,
+    }
   }
 
   /// Returns the capacity of the mailbox.
@@ -230,12 +242,16 @@ impl<T> MailboxConsumer<T> {
 #[must_use = "futures do nothing unless you .await or poll them"]
 pub struct RecvFuture<'a, T> {
   consumer: &'a MailboxConsumer<T>,
+  handle_closed: bool,
 }
 
 impl<'a, T> Future for RecvFuture<'a, T> {
   type Output = Result<T, RecvError>;
 
   fn poll(self: Pin<&mut Self>, cx: &mut Context<'_>) -> Poll<Self::Output> {
+    if self.handle_closed {
+      return Poll::Ready(Err(RecvError::Disconnected));
+    }
     let mut guard = self.consumer.shared.internal.lock();
 
     // Try to receive a value.
